@@ -727,3 +727,33 @@ Proof.
   - intros c1 s1 c2 s2 H1 H2 Et. apply make_etag_inj in Et. subst s2.
     split; [|reflexivity]. eapply nodup_stamps_content; eauto.
 Qed.
+
+(* ------------------------------------------------------------ the in-memory copy of a loaded group *)
+
+Lemma stamp_eqb_eq : forall a b, stamp_eqb a b = true -> a = b.
+Proof.
+  intros [a1 a2] [b1 b2] H. unfold stamp_eqb in H. cbn [fst snd] in H.
+  apply andb_true_iff in H. destruct H as [H1 H2].
+  apply Z.eqb_eq in H1. apply Z.eqb_eq in H2. subst. reflexivity.
+Qed.
+
+(* Whatever earlier version of the file the running server holds in memory,
+   GetDescription returns the CURRENT definition: the cached copy is used only
+   when it is the current version. *)
+Theorem cache_transparent : forall wr reqs f0 sched cache,
+  Fresh f0 sched ->
+  let w := run wr reqs f0 sched in
+  In cache (versions f0 (w_log w)) ->
+  get_description cache (w_file w) = w_file w.
+Proof.
+  intros wr reqs f0 sched cache F w Hc. subst w.
+  destruct (content_matches_tag wr reqs f0 sched F) as [_ U].
+  destruct (run_InvL wr reqs f0 sched) as [_ C _].
+  pose proof (chain_cur_version _ _ _ C) as Hcur.
+  unfold get_description. destruct cache as [[cc cs]|]; [|reflexivity].
+  unfold description_unchanged.
+  destruct (w_file (run wr reqs f0 sched)) as [[c s]|] eqn:E; [|reflexivity].
+  cbn [snd]. destruct (stamp_eqb s cs) eqn:Q; [|reflexivity].
+  apply stamp_eqb_eq in Q. subst cs.
+  destruct (U cc s c s Hc Hcur eq_refl) as [Ec _]. subst. reflexivity.
+Qed.
